@@ -295,6 +295,12 @@ func TestReplay(t *testing.T) {
 	}
 	defer out.Close()
 	n := 0
+	// every case is replayed twice in this process, the second time in reverse order: the outcome of a case is a function of the
+	// case, not of what the process did before (memos, pools and lazily built tables keyed by too little would show here)
+	n0 := len(cases)
+	for k := n0 - 1; k >= 0; k-- {
+		cases = append(cases, cases[k])
+	}
 	for i, c := range cases {
 		n++
 		spec := toBytes(c.Bytes)
@@ -415,5 +421,5 @@ func TestReplay(t *testing.T) {
 			out.Emit(map[string]any{"case": i, "kind": c.Kind, "bytes": fmt.Sprintf("%x", spec), "problems": problems})
 		}
 	}
-	out.Emit(map[string]any{"summary": true, "cases": n})
+	out.Emit(map[string]any{"summary": true, "cases": n0, "replays": n})
 }
